@@ -156,3 +156,24 @@ Definition chk15eq (c : ecase) : bool :=
   && (e_ne c =? 1 - e_eq c).
 Definition explain_eq (c : ecase) :=
   (wf_b (e_a c), wf_b (e_b c), eq_model (e_a c) (e_b c), ne_model (e_a c) (e_b c), same_abstract (e_a c) (e_b c)).
+
+(* ---------- C07: indexes that enter a history from outside: INDX load, from_array ---------- *)
+(* l_orig: abstraction of the real index that was saved; l_loaded: abstraction of the index rebuilt from
+   what the real IndxIO.load returned for the real file. *)
+Record lcase := mklcase { l_orig : iindex; l_loaded : iindex }.
+Definition chk07load (c : lcase) : bool :=
+  wf_b (l_orig c) && wf_b (l_loaded c) && idx_same (l_orig c) (l_loaded c).
+Definition explain_load (c : lcase) :=
+  (wf_b (l_orig c), wf_b (l_loaded c), shape_same (l_orig c) (l_loaded c), dense_same (l_orig c) (l_loaded c),
+   dict_same (entries (l_orig c)) (entries (l_loaded c))).
+
+(* f_rows: the dense array given to the real from_array (row-major, one list per row); f_n / f_hs its shape;
+   f_common: the common argument (None = library-chosen); f_res: abstraction of the real result. *)
+Record fcase := mkfcase { f_rows : list (list Z); f_n : Z; f_hs : list Z; f_common : option Z; f_res : iindex }.
+Definition chk07from (c : fcase) : bool :=
+  wf_b (f_res c)
+  && (nrows (f_res c) =? f_n c) && zl_eqb (hshape (f_res c)) (f_hs c)
+  && list_eqb zl_eqb (dense_rows (f_res c)) (f_rows c)
+  && match f_common c with Some v => common (f_res c) =? v | None => most_frequent_b (f_res c) end.
+Definition explain_from (c : fcase) :=
+  (wf_b (f_res c), dense_rows (f_res c), most_frequent_b (f_res c)).
